@@ -286,7 +286,7 @@ def reference(exe, items):
         lines.pop()
     if rc != 0 or len(lines) != len(items):
         raise RuntimeError("C16 reference pass failed rc=%s lines=%d/%d: %s" % (rc, len(lines), len(items), out[-400:]))
-    return [None if (l.startswith("PANIC") or " " in l) else l for l in lines]
+    return [("!" + l.replace(" ", "_")[:120]) if (l.startswith("PANIC") or " " in l) else l for l in lines]
 
 
 def m_len(entry, m):
@@ -458,8 +458,9 @@ def gen_cases(rng, tier):
     specs = writer_specs(rng, tier) + [("bld", s) for s in builder_specs(rng, tier)]
     ms = reference(exe, specs)
     for (entry, spec), m in zip(specs, ms):
-        if m is None:
-            cases.append("w %s 0 1 0 %s UNDECODABLE" % (entry, spec))    # shows up as a MODEL-FAIL: fix the generator
+        if m.startswith("!"):
+            # the reference pass could not describe the value (generator bug or a crate that contradicts itself)
+            cases.append("w %s 0 1 0 %s UNDECODABLE:%s" % (entry, spec, m[1:]))
             continue
         n = m_len(entry, m)
         modes = [(1 << 20, 0), (1, 1)] + ([(3, 0)] if (big or entry in MULTI) else [])
@@ -557,7 +558,8 @@ def compare(ctx, cases, impl, model_lines):
                 nt = True
             nontriv += nt
         if tag in ("w", "wsb", "ws") and len(a) > 3:
-            wfp = wf_problem(a[1] if tag != "wsb" else "bld", a[-1]) if a[-1] != "UNDECODABLE" else "undecodable description"
+            wfp = (wf_problem(a[1] if tag != "wsb" else "bld", a[-1]) if not a[-1].startswith("UNDECODABLE")
+                   else "reference pass failed (%s)" % a[-1][12:])
             if wfp:
                 orc.append((i, "declared length is not the encoded length: %s" % wfp, None))
         for prof, lines in impl.items():
